@@ -19,6 +19,7 @@ import (
 	"fmt"
 	"os"
 	"os/exec"
+	"path/filepath"
 	"strconv"
 	"strings"
 	"sync"
@@ -204,7 +205,9 @@ func mfRunShard(jobs []mfJob, results []*mfLine, lo, hi int, prefix, repo string
 		var stderr bytes.Buffer
 		cmd.Stderr = &stderr
 		cmd.Stdout = os.Stderr
-		cmd.Env = append(os.Environ(), "GOTRACEBACK=single")
+		// scratch files of a job live below the parent's scratch directory: a child that dies in the middle of a job
+		// leaves nothing behind
+		cmd.Env = append(os.Environ(), "GOTRACEBACK=single", "TMPDIR="+filepath.Dir(prefix))
 		done := make(chan error, 1)
 		if err := cmd.Start(); err != nil {
 			panic(err)
